@@ -119,12 +119,12 @@ Qed.
 
 Definition tscalm (t : nat) (h : ht) (I : itab) (h' : ht) (I' : itab) : Prop :=
   forall i it, geti I i = Some it -> iown it = Some t ->
-    exists it', geti I' i = Some it' /\
+    exists it', geti I' i = Some it' /\ inoreg it' = inoreg it /\
       ((iown it' = Some t /\ tcalm (ids h) (fresh h) it (ids h') (fresh h') it') \/
        (iown it' = None /\ icookie it' = None)).
 
 Lemma tscalm_refl : forall t h I, tscalm t h I h I.
-Proof. intros t h I i it Hg O. exists it. split; [exact Hg|left; split; [exact O|apply tcalm_refl]]. Qed.
+Proof. intros t h I i it Hg O. exists it. split; [exact Hg|split; [reflexivity|left; split; [exact O|apply tcalm_refl]]]. Qed.
 
 Lemma TL_bounds : forall t h I, TL t h I ->
   (forall n, In n (ids h) -> (n < fresh h)%positive) /\
@@ -140,19 +140,19 @@ Lemma tscalm_trans : forall t h0 I0 h1 I1 h2 I2, TL t h0 I0 -> frame t I1 I2 ->
 Proof.
   intros t h0 I0 h1 I1 h2 I2 HTL0 F12 S01 S12 i it Hg O.
   destruct (TL_bounds t h0 I0 HTL0) as [B0 C0].
-  destruct (S01 i it Hg O) as (it1 & Hg1 & [[O1 C1]|[O1 K1]]).
-  - destruct (S12 i it1 Hg1 O1) as (it2 & Hg2 & [[O2 C2]|[O2 K2]]).
-    + exists it2. split; [exact Hg2|left; split; [exact O2|]].
+  destruct (S01 i it Hg O) as (it1 & Hg1 & R1 & [[O1 C1]|[O1 K1]]).
+  - destruct (S12 i it1 Hg1 O1) as (it2 & Hg2 & R2 & [[O2 C2]|[O2 K2]]).
+    + exists it2. split; [exact Hg2|split; [congruence|left; split; [exact O2|]]].
       eapply tcalm_trans; [exact B0|intros c Hc; eapply C0; eassumption|exact C1|exact C2].
-    + exists it2. split; [exact Hg2|right; auto].
-  - exists it1. split; [|right; auto]. apply (fr_other _ _ _ F12 i it1 Hg1). rewrite O1. discriminate.
+    + exists it2. split; [exact Hg2|split; [congruence|right; auto]].
+  - exists it1. split; [|split; [exact R1|right; auto]]. apply (fr_other _ _ _ F12 i it1 Hg1). rewrite O1. discriminate.
 Qed.
 
 (* same iterator table, the list grows by one fresh entry *)
 Lemma tscalm_insert : forall t h I h' m1 m2, TL t h I -> ids h = m1 ++ m2 -> ids h' = m1 ++ fresh h :: m2 ->
   fresh h' = Pos.succ (fresh h) -> tscalm t h I h' I.
 Proof.
-  intros t h I h' m1 m2 HTL E E' F i it Hg O. exists it. split; [exact Hg|left; split; [exact O|]].
+  intros t h I h' m1 m2 HTL E E' F i it Hg O. exists it. split; [exact Hg|split; [reflexivity|left; split; [exact O|]]].
   destruct (TL_bounds t h I HTL) as [B C]. rewrite E, E', F. apply tcalm_insert.
   - destruct (tl_tinv _ _ _ HTL) as (l & T). pose proof (lk_nodup _ _ (ti_linked _ _ T)) as Hnd. rewrite <- (tinv_ids h l T), E in Hnd.
     apply nodup_insert_mid; [exact Hnd|]. intro Hin. rewrite <- E in Hin. pose proof (B _ Hin) as Hlt. lia.
@@ -161,7 +161,7 @@ Qed.
 
 Lemma tscalm_same : forall t h I h', ids h' = ids h -> fresh h' = fresh h -> tscalm t h I h' I.
 Proof.
-  intros t h I h' E F i it Hg O. exists it. split; [exact Hg|left; split; [exact O|]]. rewrite E, F. apply tcalm_refl.
+  intros t h I h' E F i it Hg O. exists it. split; [exact Hg|split; [reflexivity|left; split; [exact O|]]]. rewrite E, F. apply tcalm_refl.
 Qed.
 
 Lemma unregistered_no_cookie : forall t h I i it, TL t h I -> geti I i = Some it -> iown it = Some t ->
@@ -187,10 +187,10 @@ Proof.
   destruct (TL_bounds t h I HTL) as [B C].
   destruct (in_dec Nat.eq_dec i (ilist h)) as [Hin|Hn].
   - rewrite map_its_in by (try apply (tl_nodup _ _ _ HTL); assumption). rewrite Hg. cbn [option_map].
-    exists (patch_iter h e it). split; [reflexivity|left]. split; [rewrite (proj1 (patch_iter_own h e it)); exact O|].
+    exists (patch_iter h e it). split; [reflexivity|split; [apply (patch_iter_own h e it)|left]]. split; [rewrite (proj1 (patch_iter_own h e it)); exact O|].
     rewrite (tinv_ids _ _ T), (tinv_ids _ _ T'), Hf. apply tcalm_remove; [apply T|].
     intros c Hc. rewrite <- (tinv_ids _ _ T). eapply C; eassumption.
-  - rewrite map_its_notin by exact Hn. exists it. split; [exact Hg|left; split; [exact O|]].
+  - rewrite map_its_notin by exact Hn. exists it. split; [exact Hg|split; [reflexivity|left; split; [exact O|]]].
     apply tcalm_no_cookie; [eapply unregistered_no_cookie; eassumption|rewrite Hf; apply Pos.le_refl|].
     intros n Hn'. left. rewrite (tinv_ids _ _ T') in Hn'. rewrite (tinv_ids _ _ T). apply in_app_or in Hn'. apply in_or_app. destruct Hn'; [left|right; right]; assumption.
 Qed.
@@ -201,8 +201,8 @@ Proof.
   intros t dcap h I release HTL i it Hg O. unfold clear_tab. cbn [fst snd]. rewrite detach_all_eq.
   destruct (in_dec Nat.eq_dec i (ilist h)) as [Hin|Hn].
   - rewrite map_its_in by (try apply (tl_nodup _ _ _ HTL); assumption). rewrite Hg. cbn [option_map].
-    exists (detach_iter h it). split; [reflexivity|right; split; reflexivity].
-  - rewrite map_its_notin by exact Hn. exists it. split; [exact Hg|left; split; [exact O|]].
+    exists (detach_iter h it). split; [reflexivity|split; [reflexivity|right; split; reflexivity]].
+  - rewrite map_its_notin by exact Hn. exists it. split; [exact Hg|split; [reflexivity|left; split; [exact O|]]].
     apply tcalm_no_cookie; [eapply unregistered_no_cookie; eassumption|apply Pos.le_refl|intros n []].
 Qed.
 
